@@ -346,6 +346,14 @@ VF_EXPORT long vf_wk_unmarshal(int kind, void* obj, const void* buf, int compres
 // length discovery; which: 0 = *_set_length on the object, 1 = *_unmarshalled_length
 VF_EXPORT long vf_wk_length_from(int kind, void* obj, const void* buf, size_t len, int compressed, int which) {
     bool c = compressed != 0;
+    if (vf_use_cpp) {
+        if (kind == 0) {
+            if (which == 1) return c ? wk::Params::unmarshalledLength<true>(buf, len) : wk::Params::unmarshalledLength<false>(buf, len);
+            return c ? CPP(wk::Params, &((VfParams*) obj)->p).setLength<true>(buf, len) : CPP(wk::Params, &((VfParams*) obj)->p).setLength<false>(buf, len);
+        }
+        if (which == 1) return c ? wk::SecretKey::unmarshalledLength<true>(buf, len) : wk::SecretKey::unmarshalledLength<false>(buf, len);
+        return c ? CPP(wk::SecretKey, &((VfSk*) obj)->k).setLength<true>(buf, len) : CPP(wk::SecretKey, &((VfSk*) obj)->k).setLength<false>(buf, len);
+    }
     if (kind == 0) {
         if (which == 1) return embedded_pairing_wkdibe_params_unmarshalled_length(buf, len, c);
         return embedded_pairing_wkdibe_params_set_length(&((VfParams*) obj)->p, buf, len, c);
@@ -354,6 +362,11 @@ VF_EXPORT long vf_wk_length_from(int kind, void* obj, const void* buf, size_t le
     return embedded_pairing_wkdibe_secretkey_set_length(&((VfSk*) obj)->k, buf, len, c);
 }
 VF_EXPORT long vf_wk_length_formula(int kind, int length, int signatures, int compressed) {
+    if (vf_use_cpp) {
+        bool sg = signatures != 0;
+        if (kind == 0) return (long) (compressed ? wk::Params::marshalledLength<true>(length, sg) : wk::Params::marshalledLength<false>(length, sg));
+        return (long) (compressed ? wk::SecretKey::marshalledLength<true>(length, sg) : wk::SecretKey::marshalledLength<false>(length, sg));
+    }
     if (kind == 0) return (long) embedded_pairing_wkdibe_params_marshalled_length(length, signatures != 0, compressed != 0);
     return (long) embedded_pairing_wkdibe_secretkey_marshalled_length(length, signatures != 0, compressed != 0);
 }
@@ -390,8 +403,18 @@ VF_EXPORT void vf_lq_decrypt(void* sym, size_t symlen, const void* ct, const voi
     else embedded_pairing_lqibe_decrypt(sym, symlen, (const embedded_pairing_lqibe_ciphertext_t*) ct, (const embedded_pairing_lqibe_secretkey_t*) sk, (const embedded_pairing_lqibe_id_t*) id, vf_hash_fill);
 }
 // kind: 0 params, 1 id, 2 master key, 3 secret key, 4 ciphertext
+#define LQ_LEN(T) (c ? (long) lq::T::marshalledLength<true> : (long) lq::T::marshalledLength<false>)
+#define LQ_MAR(T) do { if (c) CCPP(lq::T, obj).marshal<true>(buf); else CCPP(lq::T, obj).marshal<false>(buf); } while (0)
+#define LQ_UNM(T) (c ? CPP(lq::T, obj).unmarshal<true>(buf, k) : CPP(lq::T, obj).unmarshal<false>(buf, k))
 VF_EXPORT long vf_lq_marshalled_length(int kind, int compressed) {
     bool c = compressed != 0;
+    if (vf_use_cpp) switch (kind) {
+    case 0: return LQ_LEN(Params);
+    case 1: return LQ_LEN(ID);
+    case 2: return LQ_LEN(MasterKey);
+    case 3: return LQ_LEN(SecretKey);
+    case 4: return LQ_LEN(Ciphertext);
+    }
     switch (kind) {
     case 0: return embedded_pairing_lqibe_params_get_marshalled_length(c);
     case 1: return embedded_pairing_lqibe_id_get_marshalled_length(c);
@@ -403,6 +426,13 @@ VF_EXPORT long vf_lq_marshalled_length(int kind, int compressed) {
 }
 VF_EXPORT void vf_lq_marshal(int kind, void* buf, const void* obj, int compressed) {
     bool c = compressed != 0;
+    if (vf_use_cpp) switch (kind) {
+    case 0: LQ_MAR(Params); return;
+    case 1: LQ_MAR(ID); return;
+    case 2: LQ_MAR(MasterKey); return;
+    case 3: LQ_MAR(SecretKey); return;
+    case 4: LQ_MAR(Ciphertext); return;
+    }
     switch (kind) {
     case 0: embedded_pairing_lqibe_params_marshal(buf, (const embedded_pairing_lqibe_params_t*) obj, c); return;
     case 1: embedded_pairing_lqibe_id_marshal(buf, (const embedded_pairing_lqibe_id_t*) obj, c); return;
@@ -413,6 +443,13 @@ VF_EXPORT void vf_lq_marshal(int kind, void* buf, const void* obj, int compresse
 }
 VF_EXPORT long vf_lq_unmarshal(int kind, void* obj, const void* buf, int compressed, int checked) {
     bool c = compressed != 0, k = checked != 0;
+    if (vf_use_cpp) switch (kind) {
+    case 0: return LQ_UNM(Params);
+    case 1: return LQ_UNM(ID);
+    case 2: return LQ_UNM(MasterKey);
+    case 3: return LQ_UNM(SecretKey);
+    case 4: return LQ_UNM(Ciphertext);
+    }
     switch (kind) {
     case 0: return embedded_pairing_lqibe_params_unmarshal((embedded_pairing_lqibe_params_t*) obj, buf, c, k);
     case 1: return embedded_pairing_lqibe_id_unmarshal((embedded_pairing_lqibe_id_t*) obj, buf, c, k);
